@@ -229,6 +229,16 @@ class Fn(object):
             return b1 + b2, '(%s, %s)' % (a, c), '(%s × %s)' % (lean_ty(ta), lean_ty(tc))
         if isinstance(e, ast.ListComp):
             # [x for x in xs if c]: the elements of a list that satisfy a condition, in order
+            if len(e.generators) == 1 and not e.generators[0].is_async and isinstance(e.generators[0].target, ast.Name) \
+                    and not e.generators[0].ifs and isinstance(e.elt, ast.Call) and isinstance(e.elt.func, ast.Name) \
+                    and not e.elt.keywords and len(e.elt.args) == 1 and isinstance(e.elt.args[0], ast.Name) \
+                    and e.elt.args[0].id == e.generators[0].target.id and e.elt.func.id in self.inputs:
+                # [f(x) for x in xs] with a declared input function f: the list of the f(x), in order
+                f_term, f_ty = self.inputs[e.elt.func.id]
+                b, t, ty = self.expr(e.generators[0].iter, env)
+                if not ty.startswith('List ') or f_ty != '%s → %s' % (ty[5:], ty[5:]):
+                    raise Unsupported('comprehension with %s : %s over a %s' % (e.elt.func.id, f_ty, ty))
+                return b, '(List.map %s %s)' % (f_term, t), ty
             if len(e.generators) != 1 or e.generators[0].is_async or not isinstance(e.generators[0].target, ast.Name) \
                     or not (isinstance(e.elt, ast.Name) and e.elt.id == e.generators[0].target.id):
                 raise Unsupported('list comprehension of this shape')
